@@ -53,7 +53,10 @@ func (s *syncBuf) take() string {
 }
 
 func tokenForms(tok string) []string {
-	return []string{tok, hex.EncodeToString([]byte(tok)), base64.StdEncoding.EncodeToString([]byte(tok)), base64.RawURLEncoding.EncodeToString([]byte(tok))}
+	// plain, hex, base64, and both halves of the token on their own (a leak that is
+	// truncated or escaped around a special byte still shows one half)
+	h := len(tok) / 2
+	return []string{tok, hex.EncodeToString([]byte(tok)), base64.StdEncoding.EncodeToString([]byte(tok)), base64.RawURLEncoding.EncodeToString([]byte(tok)), tok[:h], tok[h:]}
 }
 
 func runC18(b *mon.B) {
@@ -98,7 +101,7 @@ func runC18(b *mon.B) {
 		}
 		for what, tok := range tokens {
 			for fi, form := range tokenForms(tok) {
-				formName := []string{"plain", "hex", "base64", "base64url"}[fi]
+				formName := []string{"plain", "hex", "base64", "base64url", "first-half", "second-half"}[fi]
 				for _, e := range entries {
 					if strings.Contains(e.Text, form) {
 						b.Violate(caseNo, fmt.Sprintf("C18/%s-in-log/%s/%s", what, e.Level, label),
@@ -131,6 +134,9 @@ func runC18(b *mon.B) {
 		last := -1
 		for i, p := range pkts {
 			h := rfc8907.Header{Major: 0xc, Minor: p.Minor, Type: p.Type, Seq: 1 + 2*i, Flags: p.Flags, Session: sid}
+			if p.SeqOverride != 0 {
+				h.Seq = p.SeqOverride
+			}
 			res := rc.send(h, p.Body, true)
 			if res.Err != nil {
 				b.Inconclusive("watchdog in %s", label)
@@ -203,8 +209,24 @@ func runC18(b *mon.B) {
 		if right {
 			pw = real
 		}
-		flow := r.Intn(9)
+		flow := r.Intn(12)
 		switch flow {
+		case 9:
+			// a password with an octet above 0x7f (latin-1 umlaut): the CONTINUE is laid out by
+			// hand, the server's decoder refuses it
+			pw = "PW" + r.Alnum(10) + "\xe4" + r.Alnum(10)
+			rcp := asciiLogin(user, r.Bool(), pw, 0)
+			runSession("ascii-non-ascii-password", "ascii-non-ascii-password/"+kind, pw, rcp.Pkts, key)
+		case 10:
+			// the password CONTINUE arrives with a stale or even sequence number
+			rcp := asciiLogin(user, true, pw, 0)
+			rcp.Pkts[1].SeqOverride = r.Pick(1, 2, 4)
+			runSession("password-with-bad-sequence-number", "password-with-bad-sequence-number/"+kind, pw, rcp.Pkts, key)
+		case 11:
+			// PAP with binary octets in the password (data may carry any octets for PAP)
+			pw = "PW" + r.Alnum(10) + "\xff\x00\x80" + r.Alnum(10)
+			rcp := papLogin(user, pw, r.Intn(2))
+			runSession("pap-binary-password", "pap-binary-password/"+kind, pw, rcp.Pkts, key)
 		case 0, 1:
 			inStart := flow == 0
 			rcp := asciiLogin(user, inStart, pw, 0)
